@@ -63,7 +63,7 @@ Definition enc_event (e : event) : list Z :=
   | Published tag => [3; tag; 0; 0; 0; 0]
   | CbMessage mid q tag => [4; mid; q; tag; 0; 0]
   | Raised => [5; 0; 0; 0; 0; 0]
-  | In p => 6 :: enc_inpkt p ++ [0]
+  | Inp p => 6 :: enc_inpkt p ++ [0]
   | SockOpened c => [7; c; 0; 0; 0; 0]
   | SockLost => [8; 0; 0; 0; 0; 0]
   | Reconn => [9; 0; 0; 0; 0; 0]
@@ -84,7 +84,7 @@ Definition dec_event (k a b c d e : Z) : event :=
   else if k =? 3 then Published a
   else if k =? 4 then CbMessage a b c
   else if k =? 5 then Raised
-  else if k =? 6 then In (dec_inpkt a b c d)
+  else if k =? 6 then Inp (dec_inpkt a b c d)
   else if k =? 7 then SockOpened a
   else if k =? 8 then SockLost
   else Reconn.
